@@ -42,8 +42,10 @@ PALETTE = {
 
 def scenarios(tier: str) -> List[Dict[str, Any]]:
     out: List[Dict[str, Any]] = []
-    seqs = ["PEP", "KCMK"] if tier == "quick" else ["PEP", "KCMK", "SUNDS", "WHKRFW"]
-    slots = ["labile", "unknown", "nterm", "cterm", "res0", "resL", "interval", "staticAA", "staticN", "staticC", "static2"]
+    # TPTT: the static target (first/last letter) occurs three times and res1 sits on a residue no static rule targets, so
+    # the per-occurrence lists a rule expands into are independent only if the library copies them
+    seqs = ["PEP", "KCMK", "TPTT"] if tier == "quick" else ["PEP", "KCMK", "TPTT", "SUNDS", "WHKRFW"]
+    slots = ["labile", "unknown", "nterm", "cterm", "res0", "res1", "resL", "interval", "staticAA", "staticN", "staticC", "static2"]
     kinds = list(PALETTE)
     charges = [None, -3, -1, 0, 1, 2, 4]
     adducts = [None, None, "+Na+", "+H+", "+Na+,+H+", "+2Na+", "+Mg2+", "-H+", "+K+,+e-"]
@@ -118,6 +120,8 @@ def build(sc, V):
             kw.setdefault(slot + "_mods", []).append(m)
         elif slot == "res0":
             kw.setdefault("internal_mods", {}).setdefault(0, []).append(m)
+        elif slot == "res1":
+            kw.setdefault("internal_mods", {}).setdefault(1, []).append(m)
         elif slot == "resL":
             kw.setdefault("internal_mods", {}).setdefault(n - 1, []).append(m)
         elif slot == "interval":
@@ -462,7 +466,7 @@ def run(tier: str, seed: int, only=None) -> Report:
                     "chem_constants' own source on those symbols, so both calculators become polynomials in the same variables and z3 "
                     "decides whether they can differ by more than the tolerance for any atomic masses and any numeric modification value.",
         functions=FUNCS,
-        bounds="sequences PEP, KCMK (quick; repeated letters so static rules count >1) + 2 longer (thorough); 11 modification slots x 14 spellings (numeric, Formula incl. isotopes, "
+        bounds="sequences PEP, KCMK, TPTT (quick; repeated letters so static rules count 2 and 3) + 2 longer (thorough); 12 modification slots x 14 spellings (numeric, Formula incl. isotopes, "
                "Unimod name/accession/prefix, Glycan, '|' alternatives, '#' tags, Obs, signed and prefixed deltas) singly, in pairs and all "
                "at once; multipliers 1..3; all 18 ion types; charge None,-3..4 in argument or annotation; isotope 0..3; nine adduct "
                "lists; labels 13C,15N,18O,D,T and a pair; use_isotope_on_mods; mono/avg",
